@@ -17,7 +17,7 @@ namespace {
 const char* pool[] = {"a.txt", "A.TXT", "b.dat", "B.dat", "c", "readme.TXT", "d.txt", "trk1", "TRK1", "e.map", "a.TXT", "song", "x_y.bmp", "X_Y.BMP"};
 const size_t poolN = sizeof pool / sizeof pool[0];
 
-struct Arch { std::string file; bool isVol; bool loaded; std::vector<std::string> names; std::vector<std::vector<uint8_t>> data; };
+struct Arch { std::string file; bool isVol; bool loaded; std::vector<std::string> names; std::vector<std::vector<uint8_t>> data; unsigned unusedSlots = 0; uint32_t unusedFill = 0; };
 struct Layout { std::string dir; std::map<std::string, std::vector<uint8_t>> loose; std::vector<Arch> archs; };
 
 std::string strip_dot_slash(std::string s) { while (s.compare(0, 2, "./") == 0) s = s.substr(2); return s; }
@@ -39,6 +39,7 @@ Layout gen_layout(Tape& t, unsigned serial) {
 		a.file = std::to_string(i + 1) + (a.isVol ? ".vol" : ".clm");
 		if (t.below(8) == 0) { a.file = std::to_string(i + 1) + (a.isVol ? ".VOL" : ".Clm"); a.loaded = false; }   // not matched by the exact-extension scan
 		unsigned nm = unsigned(t.below(5)); bool dups = t.below(5) == 0;
+		if (a.isVol && t.below(3) == 0) { a.unusedSlots = 1 + unsigned(t.below(3)); a.unusedFill = t.flag() ? 0 : t.u32(); }   // trailing unused index slots (the game's own volumes have them)
 		std::vector<std::string> names;
 		for (unsigned k = 0; k < nm; ++k) {
 			std::string n = pool[t.below(poolN)];
@@ -60,7 +61,7 @@ void build(const Layout& L, bool subdirs) {
 	for (auto& kv : L.loose) write_file(L.dir + "/" + kv.first, kv.second);
 	for (auto& a : L.archs) {
 		std::vector<uint8_t> bytes;
-		if (a.isVol) { std::vector<refvol::Member> ms; for (size_t k = 0; k < a.names.size(); ++k) { refvol::Member m; m.name = a.names[k]; m.payload = a.data[k]; m.sizeField = uint32_t(m.payload.size()); ms.push_back(m); } bytes = refvol::encode(ms); }
+		if (a.isVol) { std::vector<refvol::Member> ms; for (size_t k = 0; k < a.names.size(); ++k) { refvol::Member m; m.name = a.names[k]; m.payload = a.data[k]; m.sizeField = uint32_t(m.payload.size()); ms.push_back(m); } refvol::EncodeOpts eo; eo.unusedSlots = a.unusedSlots; eo.unusedFill = a.unusedFill; bytes = refvol::encode(ms, eo); }
 		else { std::vector<refclm::Track> ts; for (size_t k = 0; k < a.names.size(); ++k) ts.push_back({a.names[k], a.data[k]}); bytes = refclm::encode({1, 1, 22050, 44100, 2, 16}, ts); }
 		write_file(L.dir + "/" + a.file, bytes);
 	}
@@ -92,11 +93,13 @@ void archive_laws(Archive::ArchiveFile& ar, const Arch& a, Tape& t0, Stats& st) 
 		V_CHECK(has == model, "Contains(" << jstr(q) << ") = " << has << " but the archive " << (model ? "holds" : "does not hold") << " a member equal ignoring case and './'");
 		if (has) { V_CHECK(idx < a.names.size() && name_eq(a.names[idx], q), "GetIndex(" << jstr(q) << ") = " << idx << " names a different member"); V_CHECK(idx == first, "GetIndex(" << jstr(q) << ") = " << idx << ", first matching member is " << first); if (q != a.names[idx]) st.cls("lookup:case_or_dotslash_variant_found"); }
 	}
-	for (size_t bad : {a.names.size(), a.names.size() + 1, size_t(0xFFFFFFFF), ~size_t(0)}) {
+	for (size_t bad : {a.names.size(), a.names.size() + 1, a.names.size() + 2, a.names.size() + 3, size_t(0xFFFFFFFF), ~size_t(0)}) {
 		V_CHECK(guarded([&] { ar.GetName(bad); }) == Out::Err, "GetName(" << bad << ") accepted");
 		V_CHECK(guarded([&] { ar.GetSize(bad); }) == Out::Err, "GetSize(" << bad << ") accepted");
 		V_CHECK(guarded([&] { ar.OpenStream(bad); }) == Out::Err, "OpenStream(" << bad << ") accepted");
 		V_CHECK(guarded([&] { ar.ExtractFile(bad, scratch_path("c17_bad.bin")); }) == Out::Err, "ExtractFile(" << bad << ") accepted");
+		if (a.isVol) V_CHECK(guarded([&] { static_cast<Archive::VolFile&>(ar).GetCompressionCode(bad); }) == Out::Err, "GetCompressionCode(" << bad << ") accepted");
+		if (a.unusedSlots) st.cls("lookup:index_in_unused_slot_refused");
 	}
 }
 
